@@ -466,6 +466,20 @@ def r4(ctx):
     while loop in par and not isinstance(loop, ast.For):
         loop = par[loop]
     ctx.need(isinstance(loop, ast.For), f"{f.site()}: loop over other's stored values not found")
+    # recognised wrong whatever the loop looks like: the guard of add_value is the truthiness of a looked-up stored value
+    # (`if not known.get(pair)`), so a pair already stored with distance 0.0 counts as absent and is stored again
+    n_ = adds[0]
+    while n_ in par and n_ is not loop:
+        p_ = par[n_]
+        if isinstance(p_, ast.If):
+            tt_ = p_.test
+            while isinstance(tt_, ast.UnaryOp) and isinstance(tt_.op, ast.Not):
+                tt_ = tt_.operand
+            if isinstance(tt_, ast.Call) and attr_tail(tt_) == "get" and len(tt_.args) == 1:
+                ctx.bad("R4", f"{f.site()}::duplicates-suppressed", f"the guard `{U(p_.test)}` uses the truthiness of a looked-up value as membership test: a pair already stored with "
+                        f"distance 0.0 counts as absent and is stored again - the entry count overshoots and a complete matrix refuses to densify")
+                return
+        n_ = p_
     it = inline(loop.iter, env)
     lenv = {}
     if U(it) == f"range({o}.current_index)":
@@ -546,6 +560,15 @@ def r4(ctx):
                 if isinstance(init_e, ast.SetComp) and len(init_e.generators) == 1 and not init_e.generators[0].ifs and isinstance(init_e.elt, ast.Tuple) \
                         and isinstance(init_e.generators[0].target, ast.Tuple) and [U(x) for x in init_e.elt.elts] == [U(x) for x in init_e.generators[0].target.elts]:
                     init_e = ast.Call(func=ast.Name(id="set", ctx=ast.Load()), args=[init_e.generators[0].iter], keywords=[])
+                # {(r, c) for r, c, _ in zip(R, C, V)}  is  set(zip(R, C)): the columns the element keeps, in the element's order
+                if isinstance(init_e, ast.SetComp) and len(init_e.generators) == 1 and not init_e.generators[0].ifs and isinstance(init_e.elt, ast.Tuple) \
+                        and isinstance(init_e.generators[0].target, ast.Tuple) and all(isinstance(x, ast.Name) for x in list(init_e.elt.elts) + list(init_e.generators[0].target.elts)) \
+                        and isinstance(init_e.generators[0].iter, ast.Call) and call_name(init_e.generators[0].iter) == "zip" \
+                        and len(init_e.generators[0].iter.args) == len(init_e.generators[0].target.elts):
+                    tn_ = [x.id for x in init_e.generators[0].target.elts]
+                    if len(set(tn_)) == len(tn_) and all(x.id in tn_ for x in init_e.elt.elts):
+                        cols_ = [init_e.generators[0].iter.args[tn_.index(x.id)] for x in init_e.elt.elts]
+                        init_e = ast.Call(func=ast.Name(id="set", ctx=ast.Load()), args=[ast.Call(func=ast.Name(id="zip", ctx=ast.Load()), args=cols_, keywords=[])], keywords=[])
                 # {(A[k], B[k]) for k in range(n)}  is  set(zip(A[:n], B[:n]))
                 if isinstance(init_e, ast.SetComp) and len(init_e.generators) == 1 and not init_e.generators[0].ifs and isinstance(init_e.generators[0].target, ast.Name) \
                         and isinstance(init_e.elt, ast.Tuple) and isinstance(init_e.generators[0].iter, ast.Call) and call_name(init_e.generators[0].iter) == "range" \
